@@ -10,6 +10,7 @@ Statements:
   ('for', value_name, index_name | None, array_expr, body) ('break',) ('continue',) ('return', e | None)
   ('func', name, params, last_array, body)
 """
+import copy
 import datetime
 import math
 
@@ -258,6 +259,20 @@ class Ref:
                 return None      # a failing host function makes the call evaluate to null
         return None              # calling a non-function value fails -> null
 
+    def call_back(self, f, args):
+        """A function value called by a library function (match / compare function). What the outer call makes of a library function that FAILS
+        in that position (null result, or the outer call fails too) is not documented: indeterminate."""
+        target = f.func if isinstance(f, RefPartial) else f
+        if isinstance(target, LibraryRef) and target.name in MODELS and target.name not in self.host:
+            full = (list(f.args) + list(args)) if isinstance(f, RefPartial) else list(args)
+            try:
+                MODELS[target.name](copy.deepcopy(full), self.call_back) if target.name in NEEDS_CALL else MODELS[target.name](copy.deepcopy(full))
+            except Fail as e:
+                raise UnspecifiedResult('library function %s fails as a callback' % target.name) from e
+            except UnspecifiedResult:
+                raise
+        return self.call_value(f, args)
+
     def call_library(self, name, args):
         if name in self.host:
             return self.host[name](args, self)
@@ -288,7 +303,7 @@ class Ref:
             raise Indeterminate('no reference model for ' + name)
         try:
             if name in NEEDS_CALL:
-                result = model(args, self.call_value)
+                result = model(args, self.call_back)
             else:
                 result = model(args)
         except Fail as f:
